@@ -32,14 +32,13 @@ def check(ctx, cfg):
     r5(ctx, cfg)
 
 
-def r5(ctx, cfg):
+def r5(ctx, cfg, R="C07.R5"):
     """shape of the carry loop in namespace_upper_bound: a copy of the input, positions len-1 .. 0, a 0xFF byte becomes 0
     and the scan continues, the first other byte is incremented by one and the scan stops (decides the structure of the
     carry arithmetic, not byte-level facts about its result).  Form-agnostic: the scan may go over indices
     `(0..input.len()).rev()` with `copy[i]`, or over the bytes themselves `copy.iter_mut().rev()` with `*byte`; the byte
     test may be an `if` or a `match`."""
     F, P = cfg.facts, cfg.prov
-    R = "C07.R5"
     key = NH + "namespace_upper_bound"
     f = ctx.need_fn(R, key)
     if f is None:
@@ -276,9 +275,8 @@ def _is_concat(o, ns_pred, key_pred):
     return o[0] == "call" and o[1] == NH + "concat" and ns_pred(o[2][0]) and key_pred(o[2][1])
 
 
-def r2(ctx, cfg):
+def r2(ctx, cfg, R="C07.R2"):
     F, P = cfg.facts, cfg.prov
-    R = "C07.R2"
     # helpers
     for name, meth, extra in (("get_with_prefix", "get", ()), ("set_with_prefix", "set", ("value",)), ("remove_with_prefix", "remove", ())):
         key = NH + name
@@ -603,9 +601,8 @@ def _trace_local(P, f, op, bid):
     return None
 
 
-def r4(ctx, cfg):
+def r4(ctx, cfg, R="C07.R4"):
     F, P = cfg.facts, cfg.prov
-    R = "C07.R4"
     key = LP + "to_length_prefixed"
     f = ctx.need_fn(R, key)
     if f is not None:
